@@ -947,7 +947,7 @@ def run_property(ctx, mode):
     with multiprocessing.Pool(min(16, os.cpu_count() or 4)) as pool:
         results = pool.map(worker, [(h, mode, tlimit) for h in hists], chunksize=1)
     ctx.log("ran %d histories (%d corpus) in %.1fs" % (len(hists), ncorpus, time.time() - t0))
-    cases, caserec, inv_cases, inv_rec = [], [], [], []
+    cases, caserec, inv_cases, inv_rec, mon_cases, mon_rec = [], [], [], [], [], []
     for hi, r in enumerate(results):
         h = r["hist"]
         for f, k in r["feats"].items():
@@ -975,6 +975,12 @@ def run_property(ctx, mode):
             rhs = "Some (canon_state %s)" % s["post"]
             cases.append(("h%d.s%d.%s" % (hi, s["step"], s["kind"]), lhs, rhs))
             caserec.append((h, s))
+            if mode == "C04":
+                mon_cases.append(("h%d.s%d.%s.pre" % (hi, s["step"], s["kind"]),
+                                  "mon_ok %s %s [(%d, %s)]" % (
+                                      gen.net_lit([tuple(t) for t in h["inputs"]], tuple(h["output"]), h["size_dict"]),
+                                      s["trace"], s["pre_tid"], s["pre"]), "true"))
+                mon_rec.append((h, s))
             netl = gen.net_lit([tuple(t) for t in h["inputs"]], tuple(h["output"]), h["size_dict"])
             inv_cases.append(("h%d.s%d.%s.inv" % (hi, s["step"], s["kind"]),
                               "%s %s %s" % ("cost_inv_b" if mode == "C04" else "recipe_inv_b", netl, s["post"]),
@@ -998,6 +1004,20 @@ def run_property(ctx, mode):
                   "pre": s.get("pre"), "post_observed": s.get("post"), "model_value": val,
                   "correspondence": "primitive trace replayed by Model/TreeState.v mrun vs observed tree state"},
                  found_input=False)
+    # the monitored preconditions of the preservation theorem (C04_prim_preserves_inv_partial): the
+    # verified boolean prim_pre_b is evaluated inside Coq on EVERY recorded primitive of every trace
+    if mon_cases:
+        t0 = time.time()
+        failing = ctx.coq_cases(mode.lower() + "_pre", ["TreeState", "TreeStatePre"], mon_cases,
+                                chunk=max(20, len(mon_cases) // 48 + 1), timeout=900)
+        ctx.log("precondition monitor on %d traces in %.1fs, %d failing" % (len(mon_cases), time.time() - t0, len(failing)))
+        for idx, label, val in failing[:5]:
+            h, s = mon_rec[idx] if idx < len(mon_rec) else ({}, {})
+            ctx.fail("a recorded primitive does not meet the stated precondition of the preservation theorem (prim_pre_b)",
+                     {"label": label, "history": {k: h.get(k) for k in ("inputs", "output", "size_dict", "path", "ops", "aseed", "probe")},
+                      "step": s.get("step"), "op": s.get("kind"), "trace": s.get("trace_json"), "pre": s.get("pre"),
+                      "monitor": val, "correspondence": "mon_ok (Model/TreeStatePre.v) on the recorded primitive trace"},
+                     found_input=False)
     # the verified checkers, evaluated inside Coq on every state the real tree reached
     t0 = time.time()
     failing = ctx.coq_cases(mode.lower() + "_inv", ["TreeState"] + (["TreeStateProg"] if mode == "C02" else []), inv_cases,
